@@ -49,6 +49,20 @@ def gen_cm_case(r, maxlen):
     return ops
 
 
+def gen_pressure_case(r, maxlen):
+    """full-length rows under a capacity of 2..3 rows: hits on the oldest line followed by misses
+    (the "two most recent rows stay valid if capacity allows" clause)"""
+    n = r.range(3, 7)
+    cap = n * r.range(2, 3) + r.choice([0, 0, 1, n - 1])
+    ops = [f"new {n} {cap}"]
+    for _ in range(r.range(4, maxlen)):
+        if r.chance(1, 12):
+            ops.append(f"flip {r.below(n)} {r.below(n)}")
+        else:
+            ops.append(f"row {r.below(n)} {n if r.chance(3, 4) else r.range(1, n)}")
+    return ops
+
+
 def gen_lru_case(r, maxlen):
     n = r.choice([1, 2, 3, 4, 6, 9])
     cap = r.range(1, 3 * n + 2)
@@ -172,6 +186,7 @@ def run(ctx):
     r = ctx.rng.fork("c09")
     cases += [gen_cm_case(r, maxlen) for _ in range(ncm)]
     cases += [gen_lru_case(r, maxlen) for _ in range(nlru)]
+    cases += [gen_pressure_case(r, min(maxlen, 40)) for _ in range(ncm // 2)]
     for c in cases:
         for o in c:
             ctx.hist("op_mix", o.split()[0])
